@@ -743,8 +743,14 @@ func runC15(r *Run) {
 						if slot < 0 {
 							continue
 						}
-						decided = true
 						ci := decompose(i.Cond)
+						if ci.Const != nil && !isConstInt(ci.Const, 0) {
+							continue // a bound on the lifetime (the saturation of R14), not the `no lifetime` test
+						}
+						if cb, isCmp := i.Cond.(*ssa.BinOp); isCmp && ci.Const == nil && asConst(stripValue(cb.X)) == nil && asConst(stripValue(cb.Y)) == nil {
+							continue // two computed values compared (seconds against the room left): a bound as well
+						}
+						decided = true
 						if !(ci.Root == ssa.Value(dur) && ci.Const != nil && isConstInt(ci.Const, 0)) {
 							okGuard = false
 							why = "the guard at " + r.pos(i) + " does not compare the lifetime argument itself with 0"
@@ -760,6 +766,90 @@ func runC15(r *Run) {
 			}
 		}
 		r.atLeast("expiry choices in the memory storages", n, 2)
+	})
+
+	r.rule("R14", "a long lifetime does not wrap into the past: the bundled memory storages keep the expiry as a 32-bit second count; where their Set (or its helper) adds the lifetime's seconds to the current timestamp, the sum is bounded — formed in a wider integer type and clamped, the lifetime (or its seconds) compared with a limit first, or the sum compared with the timestamp afterwards — otherwise a lifetime of about 80 years (`practically for ever`) wraps round modulo 2^32 and the entry is expired the moment it is stored (E1: a bounding comparison or min next to the sum)", func() {
+		n := 0
+		for _, pk := range []string{"internal/storage/memory", "internal/memory"} {
+			set := r.Fn(pk, "(*Storage).Set")
+			for _, f := range append([]*ssa.Function{set}, helpersOf(set)...) {
+				var dur *ssa.Parameter
+				for _, p := range f.Params {
+					if strings.HasSuffix(p.Type().String(), "time.Duration") {
+						dur = p
+					}
+				}
+				if dur == nil {
+					continue
+				}
+				isStamp := func(v ssa.Value) bool {
+					c, ok := v.(*ssa.Call)
+					return ok && strings.HasSuffix(calleeName(&c.Call), ".Timestamp")
+				}
+				onDur := func(v ssa.Value) bool { return dependsOn(v, func(x ssa.Value) bool { return x == ssa.Value(dur) }) != nil }
+				onStamp := func(v ssa.Value) bool { return dependsOn(v, isStamp) != nil }
+				nonZeroConst := func(v ssa.Value) bool {
+					c, ok := stripValue(v).(*ssa.Const)
+					if !ok {
+						return false
+					}
+					k, isInt := constInt(c)
+					return !isInt || k != 0
+				}
+				// bounding constructs of the function: an ordering comparison (or min) between something that comes from
+				// the lifetime and a limit (a non-zero constant, or something derived from the timestamp)
+				var bounds []ssa.Instruction
+				for _, b := range f.Blocks {
+					for _, in := range b.Instrs {
+						switch x := in.(type) {
+						case *ssa.BinOp:
+							switch x.Op {
+							case token.LSS, token.LEQ, token.GTR, token.GEQ:
+								for _, pr := range [][2]ssa.Value{{x.X, x.Y}, {x.Y, x.X}} {
+									if onDur(pr[0]) && (nonZeroConst(pr[1]) || (onStamp(pr[1]) && !onDur(pr[1])) || (onStamp(pr[0]) && onStamp(pr[1]))) {
+										bounds = append(bounds, x)
+									}
+								}
+							}
+						case *ssa.Call:
+							if bi, ok := x.Call.Value.(*ssa.Builtin); ok && bi.Name() == "min" {
+								for _, a := range x.Call.Args {
+									if onDur(a) {
+										bounds = append(bounds, x)
+										break
+									}
+								}
+							}
+						}
+					}
+				}
+				for _, b := range f.Blocks {
+					for _, in := range b.Instrs {
+						bo, ok := in.(*ssa.BinOp)
+						if !ok || bo.Op != token.ADD {
+							continue
+						}
+						bt, isBasic := bo.Type().Underlying().(*types.Basic)
+						if !isBasic || bt.Info()&types.IsInteger == 0 {
+							continue
+						}
+						if !((onDur(bo.X) && onStamp(bo.Y)) || (onDur(bo.Y) && onStamp(bo.X))) {
+							continue
+						}
+						n++
+						r.check(len(bounds) > 0, pk+":"+short(f.String())+":expiry-sum-is-bounded", r.pos(bo),
+							fmt.Sprintf("the sum of lifetime and timestamp is bounded (%d bounding comparison(s), first at %s)", len(bounds), func() string {
+								if len(bounds) == 0 {
+									return "-"
+								}
+								return r.pos(bounds[0])
+							}()),
+							"the lifetime's seconds are added to the current timestamp in "+bo.Type().String()+" with no bounding comparison anywhere in the function: for a lifetime of about 80 years or more (sessions or cache entries meant to last `for ever`) the sum wraps round into the past and the entry counts as expired as soon as it is stored")
+					}
+				}
+			}
+		}
+		r.atLeast("expiry sums in the memory storages", n, 2)
 	})
 
 	r.rule("R10", "a pooled buffer goes back empty on every path: in every function of the package that takes a *bytes.Buffer from a sync.Pool, each Put of it is preceded by its Reset — as plain calls on every path from the Get, or as deferred calls registered so that the Reset runs first (defers run last-in first-out) — the encoder writes type information into the buffer before it fails, a buffer returned after a failed Encode corrupts the next session that is saved or loaded through it (E1 pairing)", func() {
